@@ -74,7 +74,7 @@ def exposedVar (P : ParDo) (σ : Store) : Int :=
 def b01 (b : Bool) : String := if b then "1" else "0"
 
 /-- `(omp <loop> (<priv ids>) (<firstprivate ids>) (<bindings>) (<queries>))` →
-`((p..) (f..) (s..) trips indep uncond conflictVar exposedVar (serial values) verdict)`:
+`((p..) (f..) (s..) trips indep uncond conflictVar exposedVar (serial values) verdict staticIndep staticUncond)`:
 the model's inferred clause sets, then the behaviour of the loop under the GIVEN clause lists. -/
 def handle (s : Sexp) : String :=
   match s with
@@ -89,7 +89,8 @@ def handle (s : Sexp) : String :=
       "(" ++ showList toString sh.priv ++ " " ++ showList toString sh.fpriv ++ " " ++ showList toString sh.sync
         ++ " " ++ toString (P.trips σ) ++ " " ++ b01 (iterIndepB P σ) ++ " " ++ b01 (scalarsUncondB P σ)
         ++ " " ++ toString (conflictVar P σ) ++ " " ++ toString (exposedVar P σ)
-        ++ " " ++ showList (fun l => toString (ser l)) q ++ " " ++ search P σ ser q ++ ")"
+        ++ " " ++ showList (fun l => toString (ser l)) q ++ " " ++ search P σ ser q
+        ++ " " ++ b01 (staticIndepB P) ++ " " ++ b01 (staticUncondB P) ++ ")"
     | _ => "bad-loop"
   | .list [.atom "sharing", p] =>
     match parseStmt p with
